@@ -397,10 +397,11 @@ def run(ctx):
     from . import c08
     from ..report import Ctx
     scratch = Ctx(ctx.repo, "C08", ctx.tier)
-    for r in ("C08.reg", "C08.pop"):
+    for r in ("C08.reg", "C08.pop", "C08.id"):
         scratch.rule(r, "", 0)
     c08.rule_reg(scratch)
     c08.rule_pop(scratch)
-    ctx.adopt(scratch, {"C08.reg": "C06.reply", "C08.pop": "C06.reply"})
+    ctx.guarded("C06.reply", c08.rule_id, scratch)
+    ctx.adopt(scratch, {"C08.reg": "C06.reply", "C08.pop": "C06.reply", "C08.id": "C06.reply"})
     ctx.guarded("C06.in", rule_in, ctx, repo, routing, ctx.tier)
     ctx.guarded("C06.split", rule_split, ctx, repo)
